@@ -1,6 +1,6 @@
 SPECIFICATION Spec
 CONSTANTS
-  Mods = {"ma", "mb", "mc", "md"}
-  Family = "uniform"
+  Mods = {"ma", "mb"}
+  Families = {"raise"}
 INVARIANTS TypeOK RunOnce NoReentry OneObject Provenance StarRespectsUnderscore Terminates Usable Emit
 CHECK_DEADLOCK FALSE
